@@ -34,6 +34,7 @@ def check(case: dict):
     """one maze object, rendered with a sequence of option combinations (a later rendering must not depend on an earlier one)"""
     g, kind, sol = case["g"], case["kind"], case.get("sol")
     r, c = g["r"], g["c"]
+    M.sync_palette()
     m = L.make_kind(kind, g, sol, dtype=L.provenance(case, g))
     start = tuple(sol[0]) if kind != "lattice" else None
     end = tuple(sol[-1]) if kind != "lattice" else None
